@@ -4,8 +4,7 @@ M1 (glob part) — model of `globset::GlobBuilder::new(..).literal_separator(tru
 (tokens) and the meaning of the regex the tokens are translated to, matched against the **bytes** of
 the path (the regex is compiled in byte mode `(?-u)`, `dot_matches_new_line`).
 
-Domain restriction: characters inside `[...]` classes are ASCII (a non-ASCII class member is turned
-by globset into a class of its individual UTF-8 bytes; generators avoid that).
+A non-ASCII class member is turned by globset into a class of its individual UTF-8 bytes (`byteRanges`).
 -/
 namespace Vsb.Glob
 
@@ -175,8 +174,20 @@ def parse (glob : List Char) : Except String (List Tok) :=
 
 def slash : Nat := 47
 
+/-- The byte class globset writes for a range list: every bound is written as the escaped bytes of its UTF-8 encoding
+(`char_to_escaped_literal`), and the regex is compiled in byte mode - so `lo-hi` contributes the bytes of `lo` but the
+last, the byte range from the last byte of `lo` to the first byte of `hi`, and the remaining bytes of `hi`; a single
+character contributes each of its bytes.  For ASCII bounds this is the range itself. -/
+def byteRanges (ranges : List (Char × Char)) : List (Nat × Nat) :=
+  ranges.flatMap (fun r =>
+    if r.1 = r.2 then (utf8 r.1).map (fun b => (b, b))
+    else
+      let l := utf8 r.1
+      let h := utf8 r.2
+      l.dropLast.map (fun b => (b, b)) ++ [(l.getLast?.getD 0, h.head?.getD 0)] ++ h.tail.map (fun b => (b, b)))
+
 def inRanges (b : Nat) (ranges : List (Char × Char)) : Bool :=
-  ranges.any (fun r => r.1.toNat ≤ b && b ≤ r.2.toNat)
+  (byteRanges ranges).any (fun r => r.1 ≤ b && b ≤ r.2)
 
 /-- Remainders after consuming any number of non-`/` bytes (`[^/]*`). -/
 def starRems : Bytes → List Bytes
